@@ -8,12 +8,18 @@ Line-protocol driver for C15 (symbolic core: fill loops and request cache).
                                 already holds k1, k2, ..: final key order of
                                 `data` and the (key:branch) completion log
   progs                         names of the method branches with fill loops
+  hist <k1,..|-> <r1,r2,..>     the same history run on the C01-style table model
+                                (Model/SymCache.lean: one `Shape` per key derived
+                                from the method table): for every request the
+                                PROVENANCE of the value returned,
+                                `branch(arg1,arg2,..)`, inputs as `<key>`
 Branches and loop structure come from Gen/SymLoops.lean (regenerated from
 coresymbolic.py); the interpreter is Model/SymFill.lean.
 -/
 import AurelVerif.Model.SymFill
+import AurelVerif.Model.SymCache
 import AurelVerif.Gen.SymLoops
-open AurelVerif.SymFill AurelVerif.Gen.SymLoops
+open AurelVerif.SymFill AurelVerif.Gen.SymLoops AurelVerif.SymCache
 
 def showS : SVal → String
   | .zero => "0"
@@ -32,6 +38,10 @@ def step (line : String) : String :=
     let (cache, log) := requestAll methods (splitKeys init) (splitKeys reqs)
     "ok cache=" ++ ",".intercalate cache ++ " log=" ++
       ",".intercalate (log.map fun kb => kb.1 ++ ":" ++ kb.2)
+  | ["hist", init, reqs] =>
+    match provHistory methods (splitKeys init) (splitKeys reqs) with
+    | .ok vs => "ok " ++ " ".intercalate vs
+    | .error e => "error " ++ toString (repr e)
   | ["progs"] => "ok " ++ " ".intercalate (progs.map (·.1))
   | _ => "bad-op"
 
